@@ -152,7 +152,7 @@ impl WorldB {
                 Op::new(K_GENPAYLOAD, slot as u64, rng.below(2), len, 0)
             }
             8 => Op::new(K_CLIENTDISC, slot as u64, 0, 0, 0),
-            9 => Op::new(K_SERVERDISC, rng.below(8), 0, 0, 0),
+            9 => Op::new(K_SERVERDISC, rng.below(8), if rng.chance(1, 3) { 1 } else { 0 }, 0, 0),
             10 => Op::new(K_SETMAX, rng.below(5), 0, 0, 0),
             11 => Op::new(K_JUNK, rng.below(ns + 1), rng.below(ns + 1), rng.next() >> 20, rng.next() >> 20),
             12 => Op::new(K_MUTATE, slot as u64, dir as u64, rng.next() >> 20, rng.next() >> 20),
